@@ -25,6 +25,7 @@ type Env struct {
 	inOld   bool
 	bound   map[string]bool
 	localsAfterNames bool
+	dropGuards bool // assumption position: type facts about bound-variable terms are not kept as guards
 	proving bool // evaluating a goal (witness hints of exists are used)
 	specDef *specDefCtx
 }
@@ -158,7 +159,16 @@ func (e *Env) eval(ex ast.Expr) *Value {
 			if n.High != nil {
 				hi = e.eval(n.High).Term
 			}
-			return &Value{K: KSlice, T: b.T, Fs: []*Value{b.Fs[0], intLeaf(fmt.Sprintf("(+ %s %s)", b.Fs[1].Term, lo)), intLeaf(fmt.Sprintf("(- %s %s)", hi, lo))}}
+			off, ln := b.Fs[1].Term, hi
+			if lo != "0" {
+				if off == "0" {
+					off = lo
+				} else {
+					off = fmt.Sprintf("(+ %s %s)", off, lo)
+				}
+				ln = fmt.Sprintf("(- %s %s)", hi, lo)
+			}
+			return &Value{K: KSlice, T: b.T, Fs: []*Value{b.Fs[0], intLeaf(off), intLeaf(ln)}}
 		}
 		e.fail("slice expression on unsupported value")
 	case *ast.CallExpr:
@@ -342,6 +352,9 @@ func (e *Env) fieldOf(b *Value, name string) *Value {
 	obj, idx, _ := types.LookupFieldOrMethod(t, true, e.pkgOf(t), name)
 	fv, ok := obj.(*types.Var)
 	if !ok || fv == nil {
+		if gv := e.ghostField(b, name); gv != nil {
+			return gv
+		}
 		e.fail("no field %s in %s", name, t)
 	}
 	cur := b
@@ -416,6 +429,9 @@ func (e *Env) lvalue(ex ast.Expr) *Value {
 		obj, idx, _ := types.LookupFieldOrMethod(bt, true, e.pkgOf(bt), n.Sel.Name)
 		fv, ok := obj.(*types.Var)
 		if !ok {
+			if root, ft, okg := e.ghostFieldInfo(types.NewPointer(bt), n.Sel.Name); okg && len(bp.Path) == 0 && bp.Cell == nil {
+				return &Value{K: KPtr, T: types.NewPointer(ft), P: &Pointer{Base: bp.Base, Root: root, Ghost: "$" + n.Sel.Name, GhostT: ft}}
+			}
 			e.fail("no field %s", n.Sel.Name)
 		}
 		np := *bp
@@ -431,7 +447,7 @@ func (e *Env) lvalue(ex ast.Expr) *Value {
 			et := b.T.Underlying().(*types.Slice).Elem()
 			idx := i.Term
 			if b.Fs[1].Term != "0" {
-				idx = fmt.Sprintf("(+ %s %s)", b.Fs[1].Term, i.Term)
+				idx = fmt.Sprintf("(sidx %s %s)", b.Fs[1].Term, i.Term)
 			}
 			return &Value{K: KPtr, T: types.NewPointer(et), P: &Pointer{Base: b.Fs[0].Term, Idx: idx, Root: et}}
 		}
@@ -464,7 +480,7 @@ func (e *Env) index(n *ast.IndexExpr) *Value {
 		et := b.T.Underlying().(*types.Slice).Elem()
 		idx := i.Term
 		if b.Fs[1].Term != "0" {
-			idx = fmt.Sprintf("(+ %s %s)", b.Fs[1].Term, i.Term)
+			idx = fmt.Sprintf("(sidx %s %s)", b.Fs[1].Term, i.Term)
 		}
 		p := &Pointer{Base: b.Fs[0].Term, Idx: idx, Root: et}
 		return e.withView(func(v *State) *Value { return x.load(v, p, et) })
@@ -577,7 +593,7 @@ func (e *Env) isNil(v *Value) string {
 		return fmt.Sprintf("(= %s 0)", v.Fs[0].Term)
 	case KLeaf:
 		if v.T != nil && isAbstractBytes(v.T) {
-			return fmt.Sprintf("(bisnil %s)", v.Term)
+			return fmt.Sprintf("(= %s 0)", v.Term)
 		}
 		return fmt.Sprintf("(= %s 0)", v.Term)
 	}
@@ -650,7 +666,9 @@ func (e *Env) quant(kind string, args []ast.Expr) *Value {
 	var kept []string
 	for _, c := range captured {
 		if strings.Contains(c, qv) {
-			guard = append(guard, c)
+			// type facts about terms under the binder are dropped in both polarities: quantified specifications
+			// range over all integers (a goal becomes stronger, and every assumed instance was proved in that form)
+			_ = e.dropGuards
 		} else {
 			kept = append(kept, c)
 		}
@@ -785,11 +803,64 @@ func (e *Env) call(n *ast.CallExpr) *Value {
 			e.fail("payload: not an interface value")
 		}
 		return intLeaf(v.Fs[1].Term)
+	case "cast":
+		// cast(T, x): view the integer/reference x as a value of pointer type T
+		t := e.typeExpr(n.Args[0])
+		v := e.eval(n.Args[1])
+		ts := x.flatten(v)
+		if _, ok := t.Underlying().(*types.Pointer); ok {
+			return ptrFromTerm(t, ts[0])
+		}
+		return leaf(t, ts[0])
+	case "shas", "sget":
+		// sync.Map model: shas(m, k) key present; sget(m, k) stored value (payload reference)
+		mv := e.lvalue(n.Args[0])
+		k := e.eval(n.Args[1])
+		kt, _ := x.mapKeyTerm(e.st, k)
+		mref := x.ptrTerm(mv.P)
+		return e.withView(func(v *State) *Value {
+			if fname == "shas" {
+				return boolLeaf(fmt.Sprintf("(select (select %s %s) %s)", x.heapArr(v, "MD|sync.Map", "Bool"), mref, kt))
+			}
+			return intLeaf(fmt.Sprintf("(select (select %s %s) %s)", x.heapArr(v, "MV|sync.Map|$val", "Int"), mref, kt))
+		})
+	case "sha256sum":
+		a := e.eval(n.Args[0])
+		return leaf(types.NewSlice(types.Typ[types.Uint8]), fmt.Sprintf("(hash_sha256 %s)", a.Term))
+	case "tmhashSum":
+		a := e.eval(n.Args[0])
+		t := fmt.Sprintf("(hash_Sum %s)", a.Term)
+		return leaf(types.NewSlice(types.Typ[types.Uint8]), t)
+	case "concat":
+		a := e.eval(n.Args[0])
+		b := e.eval(n.Args[1])
+		return leaf(types.NewSlice(types.Typ[types.Uint8]), fmt.Sprintf("(bconcat %s %s)", a.Term, b.Term))
+	case "pow2":
+		a := e.eval(n.Args[0])
+		return intLeaf(fmt.Sprintf("(pow2i %s)", a.Term))
 	case "ref":
 		// ref(p): the reference of a pointer as an integer
 		v := e.eval(n.Args[0])
 		ts := x.flatten(v)
 		return intLeaf(ts[0])
+	}
+	// Go function of the same package with a `pure` contract: its result is a function of the arguments
+	if fc, ok := x.eng.cs.Funcs[e.pkgPath+"::"+fname]; ok && fc.Pure && !fc.Extern {
+		var terms []string
+		var all []*Value
+		for _, a := range n.Args {
+			v := e.eval(a)
+			all = append(all, v)
+			terms = append(terms, x.flatten(v)...)
+		}
+		fn := x.eng.funcOfContract(fc)
+		if fn == nil || fn.Signature.Results().Len() != 1 {
+			e.fail("pure function %s cannot be bound", fname)
+		}
+		rt := fn.Signature.Results().At(0).Type()
+		name := fmt.Sprintf("pure_%s_0_0", smtName(fc.PkgPath+"."+fc.Key))
+		x.globalDecl(name, fmt.Sprintf("(declare-fun %s (%s) %s)", name, strings.TrimSpace(strings.Repeat("Int ", len(terms))), sortOf(rt)))
+		return leaf(rt, fmt.Sprintf("(%s %s)", name, strings.Join(terms, " ")))
 	}
 	// spec function?
 	if sf, ok := x.eng.cs.Specs[fname]; ok {
@@ -873,6 +944,7 @@ func (e *Env) typeExpr(ex ast.Expr) types.Type {
 // ---------- spec functions ----------
 
 type specInst struct {
+	prefix   string
 	name     string
 	heapKeys []string
 	heapSort map[string]string
@@ -962,6 +1034,7 @@ func (x *Exec) specInstance(sf *SpecFunc) *specInst {
 			}
 			args = append(args, "|hp_"+smtName(k)+"|")
 		}
+		x.recSpecs[si.name] = true
 		fname := si.name + "_f"
 		// body with recursive calls at fuel k
 		bodyK := strings.ReplaceAll(bodyT, "("+si.name+" ", "("+fname+" fk ")
@@ -1050,12 +1123,14 @@ func (x *Exec) havocLocation(env *Env, c *Clause) {
 		}
 	}()
 	if ce, ok := c.Expr.(*ast.CallExpr); ok && identName(ce.Fun) == "all" {
-		k, s := x.eng.allKey(env.pkgPath, ce)
-		if k == "" {
+		ks := x.eng.allKeysOf(env.pkgPath, ce)
+		if len(ks) == 0 {
 			env.fail("cannot resolve %s", c.Src)
 		}
-		x.arrSort[k] = s
-		x.havocHeapArr(st, k)
+		for k, s := range ks {
+			x.arrSort[k] = s
+			x.havocHeapArr(st, k)
+		}
 		return
 	}
 	if id, ok := c.Expr.(*ast.Ident); ok {
@@ -1068,9 +1143,23 @@ func (x *Exec) havocLocation(env *Env, c *Clause) {
 			x.havocAllHeap(st)
 			return
 		}
+		if id.Name == "syncmaps" {
+			for _, k := range []string{"MD|sync.Map", "MV|sync.Map|$tag", "MV|sync.Map|$val"} {
+				if k == "MD|sync.Map" {
+					x.arrSort[k] = "Bool"
+				} else {
+					x.arrSort[k] = "Int"
+				}
+				x.havocHeapArr(st, k)
+			}
+			return
+		}
 	}
 	lv := env.lvalue(c.Expr)
 	_, t := pathInfo(lv.P.Root, lv.P.Path)
+	if lv.P.Ghost != "" {
+		t = lv.P.GhostT
+	}
 	x.store(st, lv.P, x.freshValue(st, t, "assigned"))
 }
 
@@ -1085,4 +1174,49 @@ func (e *Env) tryEval(ex ast.Expr) (v *Value) {
 		}
 	}()
 	return e.eval(ex)
+}
+
+// ghostFieldInfo: declared ghost field of the struct type pointed to by t.
+func (e *Env) ghostFieldInfo(t types.Type, name string) (types.Type, types.Type, bool) {
+	pt, ok := t.Underlying().(*types.Pointer)
+	if !ok {
+		return nil, nil, false
+	}
+	n, ok := pt.Elem().(*types.Named)
+	if !ok || n.Obj().Pkg() == nil {
+		return nil, nil, false
+	}
+	k := n.Obj().Pkg().Path() + "." + n.Obj().Name()
+	m := e.x.eng.cs.GhostFields[k]
+	if m == nil {
+		return nil, nil, false
+	}
+	ts, ok := m[name]
+	if !ok {
+		return nil, nil, false
+	}
+	ex, err := parseTypeExpr(ts)
+	if err != nil {
+		e.fail("ghost field %s: bad type", name)
+	}
+	env := &Env{x: e.x, pkg: e.x.eng.typesPkg(e.x.eng.cs.GhostFieldPkg[k]), pkgPath: e.x.eng.cs.GhostFieldPkg[k]}
+	return pt.Elem(), env.typeExpr(ex), true
+}
+
+func (e *Env) ghostField(b *Value, name string) *Value {
+	if b.T == nil || b.K != KPtr {
+		return nil
+	}
+	root, ft, ok := e.ghostFieldInfo(b.T, name)
+	if !ok {
+		return nil
+	}
+	x := e.x
+	key := "F|" + typeKey(root) + "|$" + name
+	base := x.ptrTerm(b.P)
+	return e.withView(func(v *State) *Value {
+		return mkValue(ft, func(l Leaf) string {
+			return fmt.Sprintf("(select %s %s)", x.heapArr(v, key+l.Path, l.Sort), base)
+		})
+	})
 }
